@@ -155,6 +155,8 @@ var c05TypeVals = []TV{
 	tvS("str"), tvS("0"), tvS("true"),
 	// strings that merely begin with a complete JSON value stay the strings they are
 	tvS("[1] Introduction"), tvS("{} is the empty object"), tvS(`{"a":1} tail`), tvS("[2024] Report [draft]"), tvS(`"quoted" rest`), tvS("7 days"), tvS("true story"), tvS("null and void"),
+	// strings from data that are complete JSON values are strings all the same
+	tvS(`["a","b"]`), tvS(`{"a":"1","b":"2"}`), tvS("[]"), tvS("{}"), tvS("[1, 2]"),
 	tvI(7), tvI(-1), tvF(1.5), tvF(3), tvB(true),
 	tvList(), tvList(tvI(1), tvS("x"), tvNil()), tvMap(nil), tvMap(map[string]TV{"k": tvI(1), "l": tvList(tvI(2))}),
 	tvList(tvMap(map[string]TV{"a": tvI(1)})),
